@@ -39,6 +39,8 @@ pub enum PStep {
     Respond { nth: usize, fields: Vec<(String, String)>, end_stream: bool, splits: Vec<usize> },
     RespondData { nth: usize, len: usize, pad: Option<u8>, end_stream: bool },
     RespondFrame { nth: usize, f: Frame },
+    /// stop / resume reading what E writes (with a finite pipe E's writes then block)
+    Reading(bool),
     /// mark for the oracles: everything after this index is "after the injection"
     Mark(String),
     /// close the peer's sending direction (EOF for E)
@@ -101,6 +103,7 @@ struct St {
     closed: bool,
     data_left: usize,
     spins_waiting: u32,
+    reading: bool,
 }
 
 fn enc_choice(enc: u8, i: usize) -> Choice {
@@ -162,6 +165,7 @@ pub async fn peer_task(spec: Rc<RawSpec>, rx: PipeRef, tx: PipeRef, peer_is_clie
         closed: false,
         data_left: 0,
         spins_waiting: 0,
+        reading: true,
     };
     // handshake: (preface) + SETTINGS
     {
@@ -174,7 +178,7 @@ pub async fn peer_task(spec: Rc<RawSpec>, rx: PipeRef, tx: PipeRef, peer_is_clie
     let mut started_data = false;
     poll_fn(|cx| {
         // ---- read everything E wrote
-        let bytes = rx.borrow_mut().take_bytes();
+        let bytes = if st.reading { rx.borrow_mut().take_bytes() } else { Vec::new() };
         let e_gone = {
             let r = rx.borrow();
             r.writer_closed && r.in_flight() == 0
@@ -498,6 +502,13 @@ pub async fn peer_task(spec: Rc<RawSpec>, rx: PipeRef, tx: PipeRef, peer_is_clie
                         tx.borrow_mut().push_bytes(&raw.encode());
                     } else if !e_gone {
                         advance = false;
+                    }
+                }
+                PStep::Reading(on) => {
+                    st.reading = *on;
+                    if *on {
+                        // pick up what accumulated on the next turn
+                        cx.waker().wake_by_ref();
                     }
                 }
                 PStep::Mark(m) => {
